@@ -5,6 +5,7 @@ package main
 import (
 	"fmt"
 	"math"
+	"strings"
 
 	"golang.org/x/perf/internal/stats"
 	"golang.org/x/perf/internal/verifh/hx"
@@ -155,6 +156,30 @@ func ttestCases(r *hx.Rand, n int) {
 					ys[j] = xs[j] + base
 				}
 				tag += "+constdiff"
+			}
+			if r.Chance(1, 7) {
+				// huge common offset + small exactly representable deviations (counters, epoch
+				// nanoseconds): the paired differences are exact and a few ulps of the inputs wide, the
+				// statistic is ordinary; an error is due iff all differences are equal
+				off := hx.Pick(r, []float64{math.Ldexp(1, 53+r.Intn(10)), 1e9, 1.7e18, -math.Ldexp(1, 56), 3e15})
+				q := math.Nextafter(math.Abs(off), math.Inf(1)) - math.Abs(off) // ulp of the offset
+				q *= float64(int(1) << uint(r.Intn(6)))
+				n1 = 2 + r.Intn(9)
+				n2 = n1
+				xs, ys = make([]float64, n1), make([]float64, n2)
+				for j := range xs {
+					xs[j] = off + float64(r.Intn(64))*q
+					ys[j] = off + float64(r.Intn(64))*q
+				}
+				if r.Chance(1, 6) { // all differences equal: the error IS due
+					d := float64(r.Intn(5)) * q
+					for j := range ys {
+						ys[j] = xs[j] + d
+					}
+					tag += "+constdiff"
+				}
+				tag = "sample+paired+hugeoffset" + strings.TrimPrefix(tag, "sample+paired")
+				base, noise = q, 1
 			}
 			if n1 <= 1 || n2 <= 1 {
 				tag += "+undersized"
